@@ -12,6 +12,18 @@ RULE_MODULES = ['droop.rules.wigm', 'droop.rules.wigm_prf', 'droop.rules.cfer', 
                 'droop.rules.mpls', 'droop.rules.meek', 'droop.rules.meek_prf', 'droop.rules.qpq']
 
 
+def own_walk(fn_node):
+    "nodes of a function body, not descending into nested function definitions"
+    todo = [n for n in fn_node.body if not isinstance(n, (ast.FunctionDef, ast.ClassDef))]
+    while todo:
+        n = todo.pop()
+        yield n
+        for c in ast.iter_child_nodes(n):
+            if isinstance(c, (ast.FunctionDef, ast.ClassDef)):
+                continue
+            todo.append(c)
+
+
 def scan(ctx, props, where, anchor, desc, ok, detail=None):
     ctx.col.add_done('SCAN', props, where, anchor, desc, bool(ok), detail=detail)
 
@@ -387,18 +399,18 @@ def gen_c07_scans(ctx):
     reads = []
     for mn, m in repo.modules.items():
         for fn in [f for f in repo.all_functions() if f.module is m]:
-            for n in ast.walk(fn.node):
+            for n in own_walk(fn.node):
                 if isinstance(n, ast.Attribute) and n.attr == 'tieOrder' and isinstance(n.ctx, ast.Load):
                     reads.append(fn.qualname)
     ok = set(reads) <= {'droop.candidates.Candidates.byTieOrder', 'droop.candidate.Candidate.as_dict',
                         'droop.election.Election.__init__', 'droop.profile.ElectionProfile.__init__',
-                        'droop.profile.ElectionProfile._ElectionProfile__bltOptionTie'}
+                        'droop.profile.ElectionProfile.__bltOptionTie'}
     scan(ctx, P, 'droop/**/*.py', 'tieorder-reads', 'the tie-break order is read only by Candidates.byTieOrder (and copied at construction / into the record)',
          ok, detail=str(sorted(set(reads))))
     callers = []
     for mn, m in repo.modules.items():
         for fn in [f for f in repo.all_functions() if f.module is m]:
-            for n in ast.walk(fn.node):
+            for n in own_walk(fn.node):
                 if isinstance(n, ast.Call) and isinstance(n.func, ast.Attribute) and n.func.attr == 'byTieOrder':
                     callers.append(fn.qualname)
                 if isinstance(n, ast.Constant) and n.value == 'tie' and fn.qualname.startswith('droop.rules') and False:
@@ -641,6 +653,7 @@ def gen_c03_scans(ctx):
     repo = ctx.repo
     P = ['C03']
     want = {
+        'droop.rules.wigm': ('b.weight * surplus / high_candidate.vote', 'generic WIGM: weight times surplus over the tally, truncating each operation'),
         'droop.rules.wigm_prf': ('b.weight * surplus / high_candidate.vote', 'PRF B.3: weight times surplus, then divided by the total vote, truncating each'),
         'droop.rules.scotland': ("V.muldiv(b.weight, surplus, high_candidate.vote, round='down')", 'Scottish 48(3): A/B with one truncation'),
         'droop.rules.mpls': ('b.weight * surplus / high_candidate.vote', 'Minneapolis transfer value as implemented (golden files)'),
@@ -652,7 +665,7 @@ def gen_c03_scans(ctx):
         for n in ast.walk(m.tree):
             if isinstance(n, ast.Assign) and any(isinstance(t, ast.Attribute) and t.attr == 'weight' and norm_src(t) == 'b.weight' for t in n.targets):
                 found.append(norm_src(n.value))
-        scan(ctx, P, mn, 'transfer-value-formula', 'the transfer value is computed as the clause words it: %s' % what, found == [expr], str(found))
+        scan(ctx, ['C03', 'C06'], mn, 'transfer-value-formula', 'the transfer value is computed as the clause words it: %s' % what, found == [expr], str(found))
     f, src = _func_src(repo, 'droop.rules.meek_prf.Rule.count')
     ok = f is not None and "V.mul(b.weight, c.kf, round='up')" in src and "V.div(V.mul(c.kf, E.quota, round='up'), c.vote, round='up')" in src
     scan(ctx, P, 'droop.rules.meek_prf.Rule.count', 'round-up-placements', 'PRF Meek B.2.a / B.2.f: keep value and keep factor are rounded up', ok)
@@ -696,6 +709,63 @@ def gen_c08_scans(ctx):
     scan(ctx, P, 'droop.rules.meek.Rule.count', 'defeat-after-iteration', 'exclusions happen only after the iteration ended without electing anybody (omega / stable / batch)', ok2)
 
 
+# --------------------------------------------------------------------------------------------- C16 definite assignment, raise sites
+def gen_c16(ctx):
+    from .defassign import check_function
+    repo = ctx.repo
+    P = ['C16']
+    n = 0
+    for f in repo.all_functions():
+        if f.module.name not in ('droop.profile', 'droop.election', 'droop.options', 'droop.candidate', 'droop.candidates'):
+            continue
+        probs = check_function(f.node)
+        n += 1
+        ctx.col.add_done('DEF', P, f.qualname, 'definite-assignment',
+                         'every local is assigned on every path (exception edges included) before it is read', not probs,
+                         detail='; '.join('%s at line %d' % pr for pr in probs))
+    scan(ctx, P, 'droop/profile.py', 'def-functions-found', 'functions were found and analysed (vacuity guard)', n >= 25, 'functions=%d' % n)
+    # every raise in profile.py raises the package's profile error
+    m = repo.module('droop.profile')
+    bad = []
+    for node in ast.walk(m.tree):
+        if isinstance(node, ast.Raise) and node.exc is not None:
+            src = norm_src(node.exc)
+            if not src.startswith('ElectionProfileError('):
+                bad.append('line %d: %s' % (node.lineno, src[:50]))
+    scan(ctx, P, 'droop/profile.py', 'raise-sites', 'every raise statement of the parser raises ElectionProfileError', not bad, '; '.join(bad))
+    # bltParse converts the iteration / conversion exceptions of the token loop
+    f = repo.resolve('droop.profile.ElectionProfile.bltParse')
+    handled = set()
+    if f is not None:
+        for node in ast.walk(f.node):
+            if isinstance(node, ast.ExceptHandler) and node.type is not None:
+                names = [norm_src(t) for t in (node.type.elts if isinstance(node.type, ast.Tuple) else [node.type])]
+                if any(isinstance(x, ast.Raise) and norm_src(x.exc).startswith('ElectionProfileError(') for x in ast.walk(node)):
+                    handled |= set(names)
+    scan(ctx, P, 'droop.profile.ElectionProfile.bltParse', 'converts-stopiteration-valueerror',
+         'running out of tokens (StopIteration) and numerals int() refuses (ValueError) become profile errors', {'StopIteration', 'ValueError'} <= handled, str(sorted(handled)))
+    # int() is applied only to tokens that matched a digits pattern
+    fp = repo.resolve('droop.profile.ElectionProfile._bltParse')
+    bad = []
+    if fp is not None:
+        src = ast.unparse(fp.node)
+        for node in ast.walk(fp.node):
+            if isinstance(node, ast.Call) and isinstance(node.func, ast.Name) and node.func.id == 'int':
+                arg = norm_src(node.args[0])
+                if not re.search(r'(digits|sdigits)\.match\(%s\)' % re.escape(arg), src):
+                    bad.append('int(%s) at line %d' % (arg, node.lineno))
+    scan(ctx, P, 'droop.profile.ElectionProfile._bltParse', 'int-after-digits', 'int() is applied only to tokens tested against the digits patterns', not bad, '; '.join(bad))
+    # the withdrawn marker is range-checked, the ranking array can hold every candidate id
+    f2 = repo.resolve('droop.profile.ElectionProfile.BallotLine.__init__')
+    src2 = ast.unparse(f2.node) if f2 else ''
+    scan(ctx, P + ['C15'], 'droop.profile.ElectionProfile.BallotLine.__init__', 'array-typecode',
+         "the ranking array's typecode is chosen so that the largest candidate id fits ('B' below 256, 'H' below 65536)",
+         "'B' if profile.nCand < 256 else 'H' if profile.nCand < 65536 else 'L'" in src2, '')
+    srcp = ast.unparse(fp.node) if fp else ''
+    scan(ctx, P + ['C15'], 'droop.profile.ElectionProfile._bltParse', 'withdrawn-range', 'a -n withdrawn marker beyond the candidate count is rejected',
+         'if wd > self.nCand:' in srcp and 'bad withdrawn candidate ID' in srcp, '')
+
+
 GENERATORS = {
     'C12': [gen_c12_scans],
     'C13': [gen_c13_scans],
@@ -703,13 +773,15 @@ GENERATORS = {
     'C17': [gen_c17_scans],
     'C09': [gen_c09_scans],
     'C18': [gen_c18_scans],
+    'C16': [gen_c16],
+    'C15': [gen_c16],
     'C19': [gen_c19_scans],
     'C10': [gen_c10_scans],
     'C11': [gen_c11_scans],
     'C03': [gen_c03_scans],
     'C08': [gen_c08_scans],
     'C07': [gen_c07_scans],
-    'C06': [gen_c09_scans],
+    'C06': [gen_c09_scans, gen_c03_scans],
     'C02': [gen_c09_scans],
     'C20': [gen_c20_scans],
 }
